@@ -123,3 +123,39 @@ Theorem C08_renaming : forall w r z z' ns,
   | _, _ => False
   end.
 Proof. exact renaming. Qed.
+
+(** The two relational clauses at PROGRAM level ([assemble_ast] = code generation of the whole
+    statement tree + all passes), lifting the node-level theorems through code generation (where
+    [.if] conditions, [:=], [.for] bounds and macro arguments are evaluated against the resolver).
+
+    Unrelated insertion: [lins w z prog1 prog2] — prog1 is prog2 with definitions of [z] ([z:],
+    [z = literal], [z := literal]) inserted at any positions of the statement tree (top level,
+    blocks, named scopes, if/else branches, loop bodies, macro bodies; any depth; any number), and
+    no identifier token or spliced name of prog2 is z-derived.  (An insertion inside a code-block
+    ARGUMENT of a macro application is the one position not covered.) *)
+From A816 Require Import Proofs.NonInterferenceMulti Proofs.NonInterferenceAst.
+Theorem C08_noninterference_program : forall w r z prog1 prog2,
+  lins w z prog1 prog2 -> prog_fresh z prog2 = true -> code_fresh z r ->
+  match assemble_ast w r prog1, assemble_ast w r prog2 with
+  | Ok o1, Ok o2 => o_blocks o1 = o_blocks o2 /\ without z (o_labels o1) = without z (o_labels o2)
+  | Err j, Err k => j = k
+  | OutOfFuel, OutOfFuel => True
+  | _, _ => False
+  end.
+Proof. exact noninterference_ast. Qed.
+(** Consistent renaming of [z] to a fresh [z'] throughout the program (definitions, identifiers,
+    qualified uses, macro parameters, loop variables, spliced names; macro and scope names are not
+    dictionary keys and stay).  Code-block arguments must not mention [z] (partial in that
+    respect: a renamed code block is a different stored value; everything else is covered). *)
+From A816 Require Import Proofs.RenamingAst.
+Theorem C08_renaming_program_partial : forall w r z z' prog,
+  nodot z = true -> nodot z' = true ->
+  prog_ok (ren z z') (inD z') prog ->
+  state_untouched z z' r = true -> code_inv (ren z z') (inD z') r ->
+  match assemble_ast w r prog, assemble_ast w r (rename_prog (ren z z') prog) with
+  | Ok o1, Ok o2 => o_blocks o2 = o_blocks o1 /\ o_labels o2 = map_keys (ren z z') (o_labels o1)
+  | Err j, Err k => j = k
+  | OutOfFuel, OutOfFuel => True
+  | _, _ => False
+  end.
+Proof. exact renaming_ast. Qed.
